@@ -135,6 +135,20 @@ Definition stepx (c : cdZ) (op : sx) : option cdZ * sx :=
                                 L (map of_Zs (spec_partition (padded zd c (last (to_nats segs) 0)) (to_nats segs)))])
       | None => (None, L [I (-1)%Z])
       end
+  | L [I 18%Z; segs; ar; repl] => (* partition (general segments), then concatenate; optionally continue with it *)
+      let sg := to_nats segs in
+      match partition_x c sg with
+      | Some ps =>
+          match concatenate Z.eqb zd ps (to_bool ar) with
+          | Some cc =>
+              let P := padded zd c (last sg 0) in
+              (Some (if to_bool repl then cc else c),
+               L [I 18%Z; L (map of_cd ps); of_cd cc; L (map of_Zs (spec_partition P sg));
+                  of_Zs (firstn (last sg 0 - hd 0 sg) (skipn (hd 0 sg) P))])
+          | None => (None, L [I (-1)%Z])
+          end
+      | None => (None, L [I (-1)%Z])
+      end
   | L [I 17%Z; I v; segs] =>      (* the label pipeline *)
       match label_pipeline Z.eqb zd c v (to_nats segs) with
       | Some c' => (Some c', L [I 17%Z; of_cd c'])
